@@ -194,6 +194,16 @@ var props = map[string]propDef{
 		Thorough:       budget{Runs: 8000, Chunk: 40, Wall: 40 * time.Minute, PerChunkGrace: 5 * time.Minute},
 		MinimiseBudget: 90 * time.Second,
 	},
+	"C28": {
+		Binary: "dsim-sql", Harness: "C28", Level: "exploration",
+		Rule: "each run = 2-4 sessions (autocommit drawn per session) spread over branches main, b1 and a branch created mid-run, behind one production SQL engine; two AUTO_INCREMENT tables; 20-70 seeded statements (up to 150 thorough): INSERT with NULL / 0 / omitted id, multi-row, mixed explicit+generated rows, explicit values above and below the sequence, START TRANSACTION / COMMIT / ROLLBACK, dolt_checkout to another branch, dolt_branch, DELETE of the newest rows, clean restart (ends the server lifetime; the oracle's memory is reset). Every generated id is read back through the unique tag of its row; within a server lifetime and per table it must differ from every id generated before by any session on any branch, exceed all of them, and exceed every explicit value accepted before on any branch. One evaluation = one inserted row checked.",
+		Assumptions: []string{"statement-level interleaving (S0): races inside one INSERT between sessions are not explored", "an explicit value counts from the moment its INSERT statement succeeded, whether or not the transaction later commits (the counter is not transactional in MySQL either)", "TRUNCATE, ALTER TABLE ... AUTO_INCREMENT and branch deletion (which legitimately reset or lower the sequence) are not generated"},
+		Real:        sqlReal, Stub: sqlStub, Persistence: "not used (clean restarts only)",
+		ExpectProbes:   []string{"generated_values", "generated_after_other_branch", "explicit-value-above-sequence", "rollback", "branch-switch", "new-branch", "delete-newest-rows"},
+		Quick:          budget{Runs: 200, Chunk: 10, Wall: 150 * time.Second, PerChunkGrace: 120 * time.Second},
+		Thorough:       budget{Runs: 8000, Chunk: 40, Wall: 40 * time.Minute, PerChunkGrace: 5 * time.Minute},
+		MinimiseBudget: 90 * time.Second,
+	},
 	"C27": {
 		Binary: "dsim-sql", Harness: "C27", Level: "exploration",
 		Rule: "each run = 2-3 sessions (autocommit drawn per session) on main plus one session on branch b1 of a fresh on-disk repository behind the production SQL engine; one keyless table kl(a, b) with a secondary index; 20-70 seeded statements: multi-row INSERT of duplicate rows, DELETE ... LIMIT n, UPDATE ... LIMIT n, COMMIT / ROLLBACK, edits on b1, CALL dolt_merge('b1'), clean restarts. The reference model is a multiset per session (snapshot + own writes) and per branch; transaction commits and branch merges combine multiplicity changes row by row (both sides changed the multiplicity of one row differently => must be reported as a conflict). Every GROUP BY over all columns, COUNT(*) and index lookup must equal the multiset. One evaluation = one checked read.",
